@@ -1406,7 +1406,16 @@ func (w *world) script(nops int, pf profile) {
 			s := ls[w.rng.Intn(len(ls))]
 			switch w.rng.Intn(4) {
 			case 0, 1:
-				w.sessReq(s, w.seqFor(s, 0), w.rSend(w.newMsg(s.src, "good", uint64(1+w.rng.Intn(3)))))
+				mi := w.newMsg(s.src, "good", uint64(1+w.rng.Intn(3)))
+				// a gated call must not be sent a request that makes its read goroutine fail (an
+				// unparsable attached key does): after the gate opens Go's select would be a coin toss
+				for k := 0; s.isGated() && !mi.ver && k < 8; k++ {
+					mi = w.newMsg(s.src, "good", uint64(1+w.rng.Intn(3)))
+				}
+				if s.isGated() && !mi.ver {
+					continue
+				}
+				w.sessReq(s, w.seqFor(s, 0), w.rSend(mi))
 				w.c.Class("op-send-good")
 			case 2:
 				if n, ok := w.lastRecv(s); ok {
